@@ -485,6 +485,19 @@ func (rn *runner) streamText(g *gen) {
 			d = g.decimal(c, false)
 		}
 		rn.textCase(g, d)
+		if i%12 == 0 {
+			// exponents beyond the package limits, up to the ends of int32: scientific notation only
+			// (plain notation of such a value would have billions of characters)
+			nd := 1 + g.r.Intn(20)
+			e := g.pick(math.MaxInt32, math.MaxInt32-1, math.MaxInt32-int64(nd), math.MaxInt32-int64(nd)+1, math.MaxInt32-int64(nd)+2,
+				math.MinInt32, math.MinInt32+1, math.MinInt32+int64(nd), 100001, 200000, -100001-int64(nd), -300000, 1<<30, -(1 << 30))
+			x := decFromBig(g.coeff(nd), e, g.r.Intn(2) == 0)
+			if x.Coeff.Sign() != 0 {
+				rn.rawCase("sci", showDec(x), true, "sci", func() string {
+					return hx(x.String()) + " " + hx(x.Text('E')) + " " + hx(x.Text('e')) + " " + hx(x.Text('g'))
+				})
+			}
+		}
 		if i%3 == 0 {
 			var bits uint64
 			switch g.r.Intn(6) {
